@@ -21,12 +21,12 @@ fn main() {
         ("starts_with", arrow_string::like::starts_with),
         ("contains", arrow_string::like::contains),
     ] {
-        let r = std::panic::catch_unwind(|| f(&empty_dict, &empty_dict).map(|a| a.len()));
+        let r = std::panic::catch_unwind(std::panic::AssertUnwindSafe(|| f(&empty_dict, &empty_dict).map(|a| a.len())));
         println!("{name}(dict, dict) on zero rows: {}", match r {
             Ok(v) => format!("{v:?}"),
             Err(_) => "PANIC (expected Ok(0))".to_string(),
         });
-        let r = std::panic::catch_unwind(|| f(&empty_dict, &empty_plain).map(|a| a.len()));
+        let r = std::panic::catch_unwind(std::panic::AssertUnwindSafe(|| f(&empty_dict, &empty_plain).map(|a| a.len())));
         println!("{name}(dict, plain) on zero rows: {}", match r {
             Ok(v) => format!("{v:?}"),
             Err(_) => "PANIC (expected Ok(0))".to_string(),
